@@ -3,6 +3,7 @@ import EaselModel.Shuffle.LemmasRev
 import EaselModel.Shuffle.LemmasMsa
 import EaselModel.Shuffle.LemmasKmer
 import EaselModel.Shuffle.LemmasMarkov1
+import EaselModel.Shuffle.LemmasDP
 import EaselModel.Shuffle.LawfulRat
 /-! # C18 — property theorems (statements + glue only; lemmas live in Shuffle/*.lean)
 
@@ -109,6 +110,73 @@ theorem xShuffleKmers_spec (dsq : Bytes) (L K : Nat) (h : L + 2 ≤ dsq.size) (r
     KmerInv K (1 + L % K) (L / K) dsq (shuffleKmers 1 dsq L K r).1 :=
   shuffleKmers_inv 1 dsq L K (by omega) r
 
+
+/-! ## doublet-preserving shuffle (Altschul–Erickson)
+
+Full statement of the property: *for every input and seed* the DP shuffle keeps the ordered-pair counts and the first and
+last residue. What is proved: (i) the conditional form — **if** the routine returns `eslOK` (its two final "reality checks"
+`x == sf`, `pos == len` passed) then the output has the input's length, first residue, last residue and exactly the input's
+multiset of ordered adjacent pairs; (ii) the walk never uses an edge twice, whatever happens. Not proved (hence `_partial`):
+that the checks always pass once the last-edge graph is accepted (the Altschul–Erickson / BEST argument); the harness
+monitors that `eslEINCONCEIVABLE` never appears. The `while (!is_eulerian)` loop is modelled with fuel. -/
+theorem shuffleDP_partial (K : Nat) (codes : List Nat) (hK : ∀ c ∈ codes, c < K) (hlen : 2 < codes.length) (r : Rng)
+    (out : Array Nat) (h : (shuffleDPcore K codes r).1 = .ok out) :
+    out.size = codes.length ∧ out.toList.head? = codes.head? ∧ out.toList.getLast? = codes.getLast? ∧
+      (adjPairs out.toList).Perm (adjPairs codes) :=
+  shuffleDPcore_ok K codes hK hlen r out (shuffleDPcore K codes r).2 (by rw [← h])
+
+/-- `esl_rsq_CShuffleDP`: on `eslOK`, either the input has length `≤ 2` and is copied, or the (upper-cased) output keeps
+    length, first and last residue and the ordered-pair multiset of the case-folded input -/
+theorem cShuffleDP_partial (s : Bytes) (r : Rng) (out : Bytes) (h : (cShuffleDP s r).1 = .ok out) :
+    (s.size ≤ 2 ∧ out = s) ∨
+    ∃ codes, out = ofCodesText codes ∧ codes.size = s.size ∧ codes.toList.head? = (textCodes s).head? ∧
+      codes.toList.getLast? = (textCodes s).getLast? ∧ (adjPairs codes.toList).Perm (adjPairs (textCodes s)) := by
+  unfold cShuffleDP at h
+  split at h
+  · simp at h
+  · rename_i halpha
+    split at h
+    · rename_i h2; simp only [SeqResult.ok.injEq] at h; exact Or.inl ⟨h2, h.symm⟩
+    · rename_i h2
+      obtain ⟨codes, h1, h3⟩ := ofDP_ok _ _ out h
+      have hK : ∀ c ∈ textCodes s, c < 26 := by
+        intro c hc
+        simp only [textCodes, List.mem_map] at hc
+        obtain ⟨b, hb, rfl⟩ := hc
+        apply letterCode_lt
+        simp only [Array.any_eq_true', not_exists, not_and, Bool.not_eq_true, Bool.not_eq_false'] at halpha
+        simpa using halpha b (by simpa using hb)
+      obtain ⟨a1, a2, a3, a4⟩ := shuffleDPcore_ok 26 (textCodes s) hK (by simp [textCodes]; omega) r codes _ h1
+      exact Or.inr ⟨codes, h3, by simpa [textCodes] using a1, a2, a3, a4⟩
+
+/-- `esl_rsq_XShuffleDP` -/
+theorem xShuffleDP_partial (dsq : Bytes) (L K : Nat) (hL : L + 2 ≤ dsq.size) (r : Rng) (out : Bytes) (h : (xShuffleDP dsq L K r).1 = .ok out) :
+    (L ≤ 2 ∧ out = dsq) ∨
+    ∃ codes, out = ofCodesDigital codes ∧ codes.size = L ∧ codes.toList.head? = (digitalCodes dsq L).head? ∧
+      codes.toList.getLast? = (digitalCodes dsq L).getLast? ∧ (adjPairs codes.toList).Perm (adjPairs (digitalCodes dsq L)) := by
+  have hlen : (digitalCodes dsq L).length = L := by simp [digitalCodes]; omega
+  unfold xShuffleDP at h
+  split at h
+  · simp at h
+  · rename_i hval
+    split at h
+    · rename_i h2; simp only [SeqResult.ok.injEq] at h; exact Or.inl ⟨h2, h.symm⟩
+    · rename_i h2
+      obtain ⟨codes, h1, h3⟩ := ofDP_ok _ _ out h
+      have hK : ∀ c ∈ digitalCodes dsq L, c < K := by
+        intro c hc
+        simp only [List.any_eq_true, not_exists, not_and, decide_eq_true_eq, Nat.not_le] at hval
+        exact hval c hc
+      obtain ⟨a1, a2, a3, a4⟩ := shuffleDPcore_ok K (digitalCodes dsq L) hK (by omega) r codes _ h1
+      exact Or.inr ⟨codes, h3, by omega, a2, a3, a4⟩
+
+/-- the walk of step (6) consumes each edge of the edge ordering at most once (unconditionally) -/
+theorem dpWalk_edges_once (E : Edges) (K c0 : Nat) (hlt : ∀ v y, y ∈ elist E v → y < K) (hc0 : c0 < K)
+    (hfirst : 0 < (elist E c0).length) (fuel : Nat) :
+    let res := dpWalk E fuel c0 (Array.replicate K 0) #[]
+    (adjPairs (res.1.toList ++ [res.2.1])).Perm (usedEdges E res.2.2 K) ∧ (usedEdges E res.2.2 K).Sublist (edgePairs E K) :=
+  dpWalk_uses_each_edge_once E K c0 hlt hc0 hfirst fuel
+
 /-! ## i.i.d. generation and Markov resampling (`α` = any lawful number type; the driver runs `α = Float`) -/
 section numeric
 variable {α : Type} [CNum α] [LawfulCNum α]
@@ -185,6 +253,9 @@ example : LawfulCNum ℚ := inferInstance
 /-! non-vacuity: concrete instances of the hypotheses -/
 example : (3 : Nat) + 2 ≤ (#[255, 1, 2, 3, 255] : Bytes).size := by decide
 example : ∀ k (hk : k < (#[#[1, 2, 3], #[4, 5, 6]] : Array Bytes).size), 0 + 3 ≤ (#[#[1, 2, 3], #[4, 5, 6]] : Array Bytes)[k].size := by decide
+/-- a run of the DP shuffle that returns `ok` (legacy LCG generator, seed 1): hypotheses of `shuffleDP_partial` are satisfiable -/
+example : (shuffleDPcore 3 [0,1,2,0,1,0] (Rng.create .fast 1)).1 = .ok #[0, 1, 0, 1, 2, 0] := by decide +kernel
+example : (∀ c ∈ [0,1,2,0,1,0], c < 3) ∧ 2 < [0,1,2,0,1,0].length := by decide
 example : (reverse false (#[1, 2, 3] : Array Nat) #[0, 0, 0] 0 3) = #[3, 2, 1] := by decide
 example : (reverse true (#[1, 2, 3, 4] : Array Nat) #[1, 2, 3, 4] 0 4) = #[4, 3, 2, 1] := by decide
 
